@@ -148,7 +148,7 @@ void exec_parser(const ExecOp& op, Outcome& out)
     simrt::begin_op(op.op_index);
     simrt::set_current_parser(p);
     out.ran = true;
-    bool heap = (p != &Holder::rodata());
+    bool heap = op.hash_image;
     if (heap) out.image_before = fnv(p, sizeof(P));
     try
     {
